@@ -31,9 +31,10 @@ HD3 = SS + '::compute_d'
 
 
 def d3_exact(A, a, b, c):
-    """independent solution of the three-asset invariant 27A(a+b+c) + D = 27AD + D^4/(27abc): floor(D) by integer bisection (strictly decreasing in D)."""
-    S = a + b + c
-    g = lambda D: 27 * a * b * c * (27 * A * S + D - 27 * A * D) - D ** 4
+    """independent solution of the three-asset invariant in the convention of the code under analysis (Ann = n * amp): Ann (a+b+c) + D = Ann D + D^4/(27abc)
+    with Ann = 3A: floor(D) by integer bisection (strictly decreasing in D)."""
+    S = a + b + c; ann = 3 * A
+    g = lambda D: 27 * a * b * c * (ann * S + D - ann * D) - D ** 4
     lo, hi = 0, 2 * S + 2
     while hi - lo > 1:
         mid = (lo + hi) // 2
